@@ -27,6 +27,18 @@ let parse tok : tagged =
   | "d" -> TP (Zar.of_int 52, Zar.of_int 11, z f.(1))
   | k -> failwith ("operand kind " ^ k)
 
+(* the type of an operand token, for the regenerated impl tables (coq/gen/XImplTable.v through XImplPairs.has_numord / has_absord) *)
+let xty_of_tok tok : xty =
+  let k = List.hd (String.split_on_char ':' tok) in
+  let width s = if s = "size" then Zar.zero else Zar.of_int (int_of_string s) in
+  match k with
+  | "u" -> XUBig | "i" -> XIBig | "s" -> XF32 | "d" -> XF64 | "q" -> XRBig | "r" -> XRelaxed
+  | _ when String.length k > 2 && String.sub k 0 2 = "pu" -> XPu (width (String.sub k 2 (String.length k - 2)))
+  | _ when String.length k > 2 && String.sub k 0 2 = "pi" -> XPi (width (String.sub k 2 (String.length k - 2)))
+  | _ when k.[0] = 'f' -> XFBig
+  | _ when k.[0] = 'g' -> XFRepr
+  | _ -> failwith ("operand kind " ^ k)
+
 let huge = function TF (_, s, e) -> Zar.sign s <> 0 && Zar.gt (Zar.abs e) big_exp | _ -> false
 
 
@@ -69,15 +81,55 @@ let log2_operand = function
       let ln = log2_z (Zar.abs n) and ld = log2_z d in Some (ln -. ld, 1e-14 *. (ln +. ld +. 1.0))
   | TP _ -> None
 let bits_s v = Printf.sprintf "%x" (Zar.to_int (f_to_bits v))
-let est_model lg = function
-  | TU z | TI z -> Some (ibig_log2_bounds lg w64 z, None)
-  | TF (b, s, e) -> Some (f_log2_bounds lg w64 b s e, (if Zar.sign s = 0 && Zar.sign e <> 0 then None else Some (digits_ub32 lg w64 w64 b s)))
-  | TQ (n, d) -> Some (q_log2_bounds lg w64 n d, None)
+(* the word size of the build that answered (token w20 / w40 in front of the libm table) *)
+let word_of tok = Zar.of_int (int_of_string ("0x" ^ String.sub tok 1 (String.length tok - 1)))
+let est_model lg w = function
+  | TU z | TI z -> Some (ibig_log2_bounds lg w z, None)
+  | TF (b, s, e) -> Some (f_log2_bounds lg w b s e, (if Zar.sign s = 0 && Zar.sign e <> 0 then None else Some (digits_ub32 lg w64 w b s)))
+  | TQ (n, d) -> Some (q_log2_bounds lg w n d, None)
   | TP _ -> None
-let size_cls x =
+let size_cls w x =
+  let dw = 2 * Zar.to_int w in
   let bl v = Zar.numbits (Zar.abs v) in
-  let big = match x with TU z | TI z -> bl z > 128 | TF (_, s, _) -> bl s > 128 | TQ (n, d) -> bl n > 128 || bl d > 128 | TP _ -> false in
+  let big = match x with TU z | TI z -> bl z > dw | TF (_, s, _) -> bl s > dw | TQ (n, d) -> bl n > dw || bl d > dw | TP _ -> false in
   if big then "large" else "small"
+
+(* ------------------------------------------------------------------ lgchk: the libm assumption, decided exactly *)
+(* enclosure of log2 n in units of 2^-160 (bit-by-bit squaring with 400 fraction bits, lower and upper track) *)
+let lg_p = 160
+let log2_enclosure_z (n : Zar.t) : Zar.t * Zar.t =
+  let f = 400 in
+  let ip = Zar.numbits n - 1 in
+  if Zar.equal n (Zar.shift_left Zar.one ip) then (let e = Zar.shift_left (Zar.of_int ip) lg_p in (e, e)) else
+  let x = Zar.shift_left n (f - ip) in
+  let two = Zar.shift_left Zar.one (f + 1) in
+  let mask = Zar.pred (Zar.shift_left Zar.one f) in
+  let yl = ref x and yu = ref x and sl = ref Zar.zero and su = ref Zar.zero in
+  for k = 1 to lg_p do
+    let zl = Zar.shift_right (Zar.mul !yl !yl) f in
+    if Zar.geq zl two then (sl := Zar.add !sl (Zar.shift_left Zar.one (lg_p - k)); yl := Zar.shift_right zl 1) else yl := zl;
+    let p = Zar.mul !yu !yu in
+    let zu = Zar.add (Zar.shift_right p f) (if Zar.sign (Zar.logand p mask) <> 0 then Zar.one else Zar.zero) in
+    if Zar.geq zu two then (su := Zar.add !su (Zar.shift_left Zar.one (lg_p - k)); yu := Zar.add (Zar.shift_right zu 1) (Zar.logand zu Zar.one)) else yu := zu
+  done;
+  let base = Zar.shift_left (Zar.of_int ip) lg_p in
+  (Zar.add base !sl, Zar.succ (Zar.add base !su))
+(* a finite f32 bit pattern times 2^160, exactly *)
+let f32_scaled (b : int) : Zar.t =
+  let e8 = (b lsr 23) land 255 and m = b land 0x7fffff in
+  let (mm, ex) = if e8 = 0 then (m, -149) else (m + 0x800000, e8 - 150) in
+  let v = Zar.shift_left (Zar.of_int mm) (ex + lg_p) in
+  if b land 0x80000000 <> 0 then Zar.neg v else v
+(* lg_contract for one integer: f32::log2 n = the pattern o; the neighbours are Flocq's Bsucc / Bpred (the model's next_up / next_down) *)
+let lg_contract_holds (n : int) (o : int) : bool =
+  let y = f_of_bits (Zar.of_int o) in
+  if (o lsr 23) land 255 = 255 then false
+  else
+    let up = Zar.to_int (f_to_bits (next_up y)) and dn = Zar.to_int (f_to_bits (next_down y)) in
+    if (up lsr 23) land 255 = 255 || (dn lsr 23) land 255 = 255 then false
+    else
+      let (el, eu) = log2_enclosure_z (Zar.of_int n) in
+      Zar.leq (f32_scaled dn) el && Zar.leq eu (f32_scaled up)
 
 let c2s = function Eq -> "eq" | Lt -> "lt" | Gt -> "gt"
 let bits = function
@@ -95,6 +147,11 @@ let is_zero_val = function XFin (n, _) -> Zar.sign n = 0 | _ -> false
 let judge op args got =
   let a i = parse (List.nth args i) in
   match op with
+  | ("ord" | "ordf") when not (has_numord (xty_of_tok (List.nth args 0)) (xty_of_tok (List.nth args 1))) ->
+      (* the regenerated table has no impl NumOrd<B> for A: the harness, whose dispatch needs the impl to compile, must say so *)
+      expect ~nt:false ~extra:"cls=no-impl path=table" "err no-impl" (List.filteri (fun i _ -> i < 2) got)
+  | ("abs" | "absf") when not (has_absord (xty_of_tok (List.nth args 0)) (xty_of_tok (List.nth args 1))) ->
+      expect ~nt:false ~extra:"cls=abs-no-impl path=table" "err no-impl" (List.filteri (fun i _ -> i < 2) got)
   | "ord" ->
       let x = a 0 and y = a 1 in
       (match ord_run x y, ord_run2 x y with
@@ -161,7 +218,16 @@ let judge op args got =
          | None -> skip "no-model")
       else
       (match spec_hash (value_of (untag x)) with
-       | None -> (match got with "ok" :: _ -> pass ~nt:false ~extra:("cls=hash-nonfinite-" ^ kind x ^ prim_asis) () | _ -> fail "ok <any>")
+       | None ->
+           (* infinities and NaN have no exact value: the answer is num-order's convention (transcribed, C14_prim_float_hash_inf / _nan) for
+              the primitives and the as-is body for dashu's infinite floats, which agree for the infinities (C14_inf_hash_agree: both 0) *)
+           let m = match prim with Some m -> Some m | None -> hash_asis x in
+           (match m with
+            | Some m ->
+                let infinite = (match value_of (untag x) with XInf _ -> true | _ -> false) in
+                if infinite && Zar.sign m <> 0 then fail "infinity-hash-not-0(model)"
+                else expect ~nt:false ~extra:("cls=hash-nonfinite-" ^ kind x ^ " asis=" ^ (if [ "ok"; hx m; "10" ] = got then "same" else "diff")) ("ok " ^ hx m ^ " 10") got
+            | None -> (match got with "ok" :: _ -> pass ~nt:false ~extra:("cls=hash-nonfinite-" ^ kind x) () | _ -> fail "ok <any>"))
        | Some h ->
            let asis = if prim <> None then String.trim prim_asis else match hash_asis x with
              | Some m -> "asis=" ^ (if [ "ok"; hx m; "10" ] = got then "same" else "diff")
@@ -170,12 +236,13 @@ let judge op args got =
   | "est" ->
       let x = a 0 in
       (match got with
-       | "ok" :: lo :: hi :: dub :: _k :: rest ->
+       | "ok" :: lo :: hi :: dub :: wtok :: _k :: rest ->
            let pairs = read_pairs rest in
-           let cls = "cls=est-" ^ kind x ^ "-" ^ size_cls x in
+           let w = word_of wtok in
+           let cls = "cls=est-" ^ kind x ^ "-" ^ size_cls w x ^ "-" ^ wtok in
            if not (libm_ok pairs) then fail "libm-contract(one-ulp)-violated"
            else
-             let model = (try est_model (lg_of_pairs pairs) x with Lg_missing -> None) in
+             let model = (try est_model (lg_of_pairs pairs) w x with Lg_missing -> None) in
              let asis = match model with
                | Some ((l, u), d) ->
                    let ds = match d with Some d -> Printf.sprintf "%x" (Zar.to_int d) | None -> "-" in
@@ -195,13 +262,19 @@ let judge op args got =
                     | _ -> true in
                   if lo_f <= t +. err && t -. err <= hi_f && dub_ok then pass ~extra:(cls ^ " " ^ asis) ()
                   else fail (Printf.sprintf "log2_bounds-do-not-enclose-%.17g%s" t (if dub_ok then "" else "-digits_ub-too-small")))
-       | _ -> fail "ok lo hi dub k pairs")
+       | _ -> fail "ok lo hi dub w k pairs")
   | "ordf" | "absf" | "cmpf" ->
       let x = a 0 and y = a 1 in
-      let rec split acc = function "t" :: _k :: rest -> (List.rev acc, read_pairs rest) | t :: rest -> split (t :: acc) rest | [] -> (List.rev acc, []) in
-      let (ans, pairs) = split [] got in
+      let rec split acc = function "t" :: wtok :: _k :: rest -> (List.rev acc, read_pairs rest, word_of wtok) | t :: rest -> split (t :: acc) rest | [] -> (List.rev acc, [], w64) in
+      let (ans, pairs, w) = split [] got in
       (match ans with
-       | "err" :: _ -> expect "err no-impl" ans
+       | "err" :: _ ->
+           (* no impl only where the model has none either (floats of two bases under AbsOrd / Ord, two primitives) *)
+           let none = match op with
+             | "ordf" -> ord_run x y = None
+             | "absf" -> abs_run x y = None
+             | _ -> (match x, y with TF (b1, _, _), TF (b2, _, _) -> not (Zar.equal b1 b2) | _ -> true) in
+           if none then expect ~nt:false "err no-impl" ans else fail "an-impl-exists"
        | _ ->
       if not (libm_ok pairs) then fail "libm-contract(one-ulp)-violated"
       else
@@ -210,7 +283,7 @@ let judge op args got =
         let far = huge x || huge y in
         (match op with
          | "ordf" ->
-             (match (try ord_raw lg w64 x y with Lg_missing -> None), ord_run x y with
+             (match (try ord_raw lg w x y with Lg_missing -> None), ord_run x y with
               | Some m, Some m1 ->
                   let want = if far then m1 else spec_cmp (value_of (untag x)) (value_of (untag y)) in
                   let asis = "asis=" ^ (if split_ws (ord_answer m) = ans then "same" else "diff") in
@@ -218,7 +291,7 @@ let judge op args got =
                   else expect ~extra:(cls ^ " " ^ asis) (ord_answer want) ans
               | _ -> fail "no-model")
          | "absf" ->
-             (match (try abs_raw lg w64 x y with Lg_missing -> None), abs_run x y with
+             (match (try abs_raw lg w x y with Lg_missing -> None), abs_run x y with
               | Some m, Some m1 ->
                   let want = if far then Some m1 else spec_abs_cmp (value_of (untag x)) (value_of (untag y)) in
                   (match want with
@@ -230,7 +303,7 @@ let judge op args got =
          | _ ->
              (match x, y with
               | TF (b, s1, e1), TF (_, s2, e2) ->
-                  let m = (try Some (fsame_raw lg w64 b s1 e1 s2 e2) with Lg_missing -> None) in
+                  let m = (try Some (fsame_raw lg w b s1 e1 s2 e2) with Lg_missing -> None) in
                   let want = if far then Some (fsame_run b s1 e1 s2 e2) else spec_cmp (value_of (untag x)) (value_of (untag y)) in
                   (match m, want with
                    | Some m, Some wv ->
@@ -238,6 +311,20 @@ let judge op args got =
                        expect ~extra:(cls ^ " " ^ asis) ("ok " ^ c2s wv) ans
                    | _ -> fail "no-model")
               | _ -> fail "cmp-operands")))
+  | "lgchk" ->
+      let lo = int_of_string ("0x" ^ List.nth args 0) and hi = int_of_string ("0x" ^ List.nth args 1) in
+      (match got with
+       | "ok" :: cnt :: bad :: und :: _k :: rest ->
+           let h s = int_of_string ("0x" ^ s) in
+           let pairs = read_pairs rest in
+           if h cnt <> hi - lo + 1 then fail "count"
+           else if h bad <> 0 then fail "lg_contract-violated(harness-enclosure)"
+           else if h und <> 0 then fail "lg_contract-undecided-at-40-bits"
+           else if List.length pairs < 3 then fail "samples"
+           else if not (List.for_all (fun (n, _) -> lo <= n && n <= hi) pairs) then fail "sample-out-of-range"
+           else if not (List.for_all (fun (n, o) -> lg_contract_holds n o) pairs) then fail "lg_contract-violated(oracle-enclosure)"
+           else pass ~extra:"cls=lgchk path=all-in-range" ()
+       | _ -> fail "ok count bad und k pairs")
   | _ -> fail ("unknown-op-" ^ op)
 
 let () = serve judge
